@@ -34,6 +34,10 @@ OPS = (
     ('add-ansistr', lambda a, b: a + AnsiStr(b)),
     ('join', lambda a, b: AnsiString.join(a, b)),
     ('join3', lambda a, b: AnsiString.join(a, b, a)),
+    ('join1', lambda a, b: AnsiString.join(a)),
+    ('join1-ansistr', lambda a, b: AnsiString(AnsiStr.join(a))),
+    ('to_str-ansi-only', lambda a, b: (a.to_str(':bold'), format(a, ':underline'), '{::italic}'.format(a), a.to_str('>6:red'), [])[-1]),
+    ('render-calls', lambda a, b: (str(a), repr(a), a.to_str(None, False, True, False), a.encode(), list(iter(b)), [])[-1]),
     ('slice', lambda a, b: a[1:]),
     ('slice-full', lambda a, b: a[:]),
     ('index', lambda a, b: a[0]),
